@@ -510,6 +510,13 @@ func c19RunE2E(c *c19Case) (res Result) {
 		}
 		h := hits[0]
 		tagset["e2e-relayed"] = true
+		if _, q, ok := strings.Cut(rq.URI, "?"); ok {
+			if _, err := url.ParseQuery(q); err != nil || strings.Contains(q, ";") {
+				tagset["e2e-raw-query-unparseable"] = true
+			} else if q != "" {
+				tagset["e2e-query"] = true
+			}
+		}
 		if rr.Header().Get(c19Marker) != fmt.Sprint(h.slot) {
 			fail(i, fmt.Sprintf("upstream %d received the request but its answer did not reach the client (status %d)", h.slot, rr.Code))
 		}
@@ -529,11 +536,22 @@ func c19RunE2E(c *c19Case) (res Result) {
 				}
 			}
 			if !ok {
-				fail(i, fmt.Sprintf("request target %q with rules %v arrived as %q, expected %q", rq.URI, c.Rules, h.uri, rq.Want))
+				gp, gq, _ := strings.Cut(h.uri, "?")
+				wp, wq, _ := strings.Cut(rq.Want[0], "?")
+				if len(rq.Want) == 1 && gp == wp && gq != wq {
+					fail(i, fmt.Sprintf("raw query not intact: request target %q must reach the upstream with query %q, it arrived with %q", rq.URI, wq, gq))
+				} else {
+					fail(i, fmt.Sprintf("request target %q with rules %v arrived as %q, expected %q", rq.URI, c.Rules, h.uri, rq.Want))
+				}
 			}
 			if h.uri != rq.URI {
 				tagset["e2e-rewritten"] = true
 				nontrivial = true
+			}
+		}
+		if len(rq.Want) == 0 && len(c.Rules) == 0 {
+			if h.uri != rq.URI {
+				fail(i, fmt.Sprintf("request target %q (no rewrite rules) arrived as %q", rq.URI, h.uri))
 			}
 		}
 		if !bytes.Equal(h.body, rq.Body) {
@@ -635,6 +653,13 @@ func c19GenQuery(r *rand.Rand) string {
 		return ""
 	}
 	qs := []string{"?a=1", "?a=1&b=2", "?q=%20x&r=%2F", "?", "?k", "?x=A+B&x=C", "?u=%C3%A9"}
+	if r.Intn(2) == 0 {
+		// raw queries a proxy must pass on byte for byte although url.ParseQuery rejects or
+		// normalises them: `;`, malformed percent escapes, `+`, empty keys/values, repeated
+		// keys, encoded separators, empty pairs
+		qs = []string{"?q=a;b&x=1", "?a;b", "?x=%zz&y=2", "?x=1&y=%", "?x=%2&y=2", "?%zz", "?a=+&b=+c+", "?=v&k=&=", "?&&a=1&&",
+			"?k=1&k=2&k=1", "?a=%26%3D&b=%3d%26", "?a=b=c&d", "?x=1;y=2;z", "?p=%&q=;", "?a=1&b=%C3%28"}
+	}
 	return qs[r.Intn(len(qs))]
 }
 
